@@ -114,7 +114,7 @@ EMPTY_RUN = dict(obligations=[], outcomes=[], errors=['replay run timed out'])
 def do_replay(prop, cname, obl, outdir):
     """returns (replay_path, confirmed: bool)"""
     reg = tasks.load_contracts()
-    c = next(x for x in reg.all if x.name == cname)
+    c = next(x for x in reg.all if x.name == cname and not x.assumed)
     rec = dict(property=prop, contract=cname, obligation=obl['name'], clause_doc=c.doc, verifier_inputs=obl.get('inputs'),
                verifier_trace=obl.get('trace'), detail=obl.get('detail'))
     confirmed = False
@@ -184,7 +184,7 @@ def main(argv=None):
             ok, msg = m.replay(rec)
             print(('REPLAY-HOLDS ' if ok else 'REPLAY-VIOLATES ') + msg)
             return 0 if ok else 1
-        c = next(x for x in reg.all if x.name == rec['contract'])
+        c = next(x for x in reg.all if x.name == rec["contract"] and not x.assumed)
         inputs = rec.get('failing_input') or rec.get('verifier_inputs')
         nat = native_replay(c, inputs)
         pinned = tasks.run_contract_task((rec['contract'], {'pinned': inputs, 'max_paths': 400}))
